@@ -614,7 +614,9 @@ void mmd_export_image_opendocument(DString * out, const char * source, token * t
 	}
 
 	if (width) {
-		printf(" svg:width=\"%s\">\n", width);
+		print_const(" svg:width=\"");
+		mmd_print_string_opendocument(out, width, false);
+		print_const("\">\n");
 	} else {
 		print_const(" svg:width=\"95%\">\n");
 	}
@@ -622,8 +624,11 @@ void mmd_export_image_opendocument(DString * out, const char * source, token * t
 	print_const("<draw:text-box><text:p><draw:frame text:anchor-type=\"as-char\" draw:z-index=\"1\" ");
 
 	if (height && width) {
-		printf("svg:height=\"%s\" ", height);
-		printf("svg:width=\"%s\" ", width);
+		print_const("svg:height=\"");
+		mmd_print_string_opendocument(out, height, false);
+		print_const("\" svg:width=\"");
+		mmd_print_string_opendocument(out, width, false);
+		print_const("\" ");
 	}
 
 	if (height) {
